@@ -23,9 +23,41 @@ import (
 )
 
 const (
-	findClass = "tsig-class-not-any" // DESIGN §4 #18
-	findFudge = "tsig-fudge-zero"    // a Fudge of 0 on the wire is replaced by 300 before the MAC is computed
+	findClass   = "tsig-class-not-any"    // DESIGN §4 #18
+	findFudge   = "tsig-fudge-zero"       // a Fudge of 0 on the wire is replaced by 300 before the MAC is computed
+	findReqMAC1 = "tsig-reqmac-one-octet" // a request MAC of exactly one octet: tsigBuffer's scratch buffer is one octet short
 )
+
+// reqMACLens are the request-MAC lengths the generators draw from. The request MAC is whatever MAC
+// the previous message carried: HMACs are 20..64 octets, RFC 8945 truncation goes down to 10, a
+// custom TsigProvider (GSS-TSIG, a test double) returns what it likes - one octet included.
+var reqMACLens = []int{10, 16, 20, 28, 32, 48, 64, 64, 65, 66, 80, 128, 200, 1000, 1, 1, 2, 3, 4, 5, 9}
+
+// genReqMAC draws a request MAC of one of the lengths; while the one-octet finding is live that
+// length is replaced by two octets (counted).
+func genReqMAC(t *rapid.T, lens []int) []byte {
+	n := rapid.SampledFrom(lens).Draw(t, "reqlen")
+	if n == 1 && pbt.Known(findReqMAC1) {
+		pbt.Excluded(findReqMAC1)
+		n = 2
+	}
+	return rapid.SliceOfN(rapid.Byte(), n, n).Draw(t, "reqmac")
+}
+
+func reqLenClass(n int) string {
+	switch {
+	case n == 0:
+		return "reqmac-octets=0"
+	case n <= 3:
+		return fmt.Sprintf("reqmac-octets=%d", n)
+	case n < 10:
+		return "reqmac-octets=4-9"
+	case n <= 64:
+		return "reqmac-octets=10-64"
+	default:
+		return "reqmac-octets>64"
+	}
+}
 
 var algNames = []string{"hmac-sha1.", "hmac-sha224.", "hmac-sha256.", "hmac-sha384.", "hmac-sha512."}
 var macLen = map[string]int{"hmac-sha1.": 20, "hmac-sha224.": 28, "hmac-sha256.": 32, "hmac-sha384.": 48, "hmac-sha512.": 64}
@@ -143,9 +175,6 @@ func checkTsig(c tsigCase) (err error) {
 		return nil
 	}
 	supported := ref.TsigHash(algL) != nil
-	if len(c.ReqMAC) > 0 && len(c.ReqMAC) < 10 {
-		return nil
-	}
 	packed, perr := c.Msg.Build().Pack()
 	if perr != nil || len(packed)+len(keyL.Wire())+10+len(algL.Wire())+16+64+len(c.Other) > 65535 {
 		return nil
@@ -153,7 +182,7 @@ func checkTsig(c tsigCase) (err error) {
 	flags := binary.BigEndian.Uint16(packed[2:])
 	notauth := flags&0xF == 9
 	unsignedErr := c.Error == 16 || c.Error == 17 // BADSIG / BADKEY answers carry an empty MAC (RFC 8945 5.3.2)
-	classes := []string{"alg=" + lower(c.Alg), fmt.Sprintf("reqmac=%v", len(c.ReqMAC) > 0), fmt.Sprintf("reqmac>64=%v", len(c.ReqMAC) > 64), fmt.Sprintf("timersonly=%v", c.TimersOnly),
+	classes := []string{"alg=" + lower(c.Alg), fmt.Sprintf("reqmac=%v", len(c.ReqMAC) > 0), fmt.Sprintf("reqmac>64=%v", len(c.ReqMAC) > 64), reqLenClass(len(c.ReqMAC)), fmt.Sprintf("timersonly=%v", c.TimersOnly),
 		fmt.Sprintf("refsigned=%v", c.RefSigned), sizeClass(len(packed)), fmt.Sprintf("compress=%v", c.Msg.Compress), fmt.Sprintf("error=%d", min(int(c.Error), 19)),
 		fmt.Sprintf("other=%v", len(c.Other) > 0), fmt.Sprintf("secretlen=%s", lenClass(len(c.Secret)))}
 	nontrivial := c.Msg.Records() >= 1
@@ -218,7 +247,7 @@ func checkTsig(c tsigCase) (err error) {
 			return nil
 		}
 		if gerr != nil {
-			return pbt.Errf("TsigGenerate failed: %v (alg %s, message %d octets)", gerr, c.Alg, len(packed))
+			return pbt.Errf("TsigGenerate failed: %v (alg %s, message %d octets, request MAC %d octets, timers only %v)", gerr, c.Alg, len(packed), len(c.ReqMAC), c.TimersOnly)
 		}
 		stripped, last, mp, werr := ref.StripLast(out)
 		if werr != nil {
@@ -537,6 +566,26 @@ func checkTsig(c tsigCase) (err error) {
 			return pbt.Errf("TsigVerify accepted the signed message after the alteration %q (alg %s, timers only %v, request MAC %d octets); reference: %s", a.name, c.Alg, c.TimersOnly, len(c.ReqMAC), why)
 		}
 	}
+	// the request MAC is handed over as a hex string: the same octets in upper-case digits are the
+	// same request MAC; a string that is no whole number of octets is no request MAC at all and
+	// must not make anything verify
+	secret64, reqHex := base64.StdEncoding.EncodeToString(c.Secret), hex.EncodeToString(c.ReqMAC)
+	if up := strings.ToUpper(reqHex); up != reqHex {
+		pbt.Class("reqmac-hex-upper-case")
+		if verr := dns.VerifTsigVerifySecretAt(append([]byte(nil), out...), secret64, up, c.TimersOnly, c.Time); verr != nil {
+			return pbt.Errf("TsigVerify of a correctly signed message fails when the request MAC (%d octets) is written with upper-case hex digits: %v", len(c.ReqMAC), verr)
+		}
+	}
+	odd := []string{reqHex + "0", "0" + reqHex}
+	if len(reqHex) > 0 {
+		odd = append(odd, reqHex[:len(reqHex)-1], reqHex[1:])
+	}
+	for _, o := range odd {
+		pbt.Class("reqmac-odd-hex")
+		if dns.VerifTsigVerifySecretAt(append([]byte(nil), out...), secret64, o, c.TimersOnly, c.Time) == nil {
+			return pbt.Errf("TsigVerify accepted the signed message with the request MAC argument %q, which is not a whole number of octets (signed over %q)", o, reqHex)
+		}
+	}
 	return nil
 }
 
@@ -649,8 +698,7 @@ func genTsig(t *rapid.T) tsigCase {
 	c.Secret = genSecret(t, "secret")
 	c.Secret2 = genSecret(t, "secret2")
 	if rapid.IntRange(0, 2).Draw(t, "hasreq") > 0 {
-		n := rapid.SampledFrom([]int{10, 16, 20, 28, 32, 48, 64, 64, 65, 66, 80, 128, 200, 1000}).Draw(t, "reqlen") // the request MAC is whatever the request carried: custom providers (GSS-TSIG) make long ones
-		c.ReqMAC = rapid.SliceOfN(rapid.Byte(), n, n).Draw(t, "reqmac")
+		c.ReqMAC = genReqMAC(t, reqMACLens)
 	}
 	c.TimersOnly = rapid.IntRange(0, 3).Draw(t, "timers") == 0
 	c.Fudge = rapid.OneOf(rapid.SampledFrom([]uint16{300, 300, 300, 1, 2, 256, 65535}), rapid.Uint16Range(1, 65535)).Draw(t, "fudge")
@@ -717,6 +765,13 @@ func init() {
 	pbt.Probe(findFudge, func() error {
 		c := simple
 		c.SkipClass = true
+		return checkTsig(c)
+	})
+	// the breaker's input: TsigGenerate(m, secret, "ab", false) - a request MAC of one octet
+	pbt.Probe(findReqMAC1, func() error {
+		c := simple
+		c.SkipClass, c.SkipFudge0 = true, true
+		c.ReqMAC = []byte{0xab}
 		return checkTsig(c)
 	})
 }
